@@ -31,6 +31,14 @@ def gen_imports(r, g, k):
     out = []
     for _ in range(k):
         out.append(g.imp())
+    if r.random() < .12:
+        # A, B, A over one name: a repeated identical import around a different binder of the same alias (the last one
+        # wins in Python and in ImportSet(ignore_shadowed=True)); the alias is read afterwards (REPEAT_READS)
+        alias = r.choice(["pick", "pk2"])
+        a = ["from", ["a"], [["one", alias]]]
+        b = r.choice([["from", ["m"], [["two", alias]]], ["import", [[["pkg", "sub"], alias]]]])
+        pos = r.randint(0, len(out))
+        out[pos:pos] = [a, b, ["from", ["a"], [["one", alias]]]]
     return out
 
 
@@ -121,8 +129,18 @@ def make_case(seed, i):
         # reads of imported-looking names so that operations on them are observed
         for _ in range(r.randint(0, 2)):
             prog.append(["expr", ["load", r.choice(G.NAMES), [r.choice(G.ATTRS)]]])
+    if r.random() < .06:
+        # a store to an imported name inside a block that does not execute (`if 0:` / `while 0:`), the name read afterwards
+        tops = [n for st in prog if st[0] in ("import", "from") and st[1] != ["__future__"] for n in c05.stmt_binds(st)]
+        if tops:
+            nm = r.choice(tops)
+            prog.append([r.choice(["if", "while"]), ["op", "const0", []], [["assign", [["n", nm]], ["op", "const", []]]], []])
+            prog.append(["expr", ["load", nm, [r.choice(G.ATTRS)]]])
     for nm in rel_reads:
         prog.append(["expr", ["load", nm, [r.choice(G.ATTRS)]]])
+    for nm in ("pick", "pk2"):
+        if any(s[0] in ("from", "import") and any((it[1] == nm) for it in (s[2] if s[0] == "from" else s[1])) for s in prog):
+            prog.append(["expr", ["load", nm, [r.choice(G.ATTRS)]]])
     add_docstrings(r, prog, top=True)
     # imports that are read only by a doctest example (or named only in braces)
     docs = []
@@ -137,12 +155,18 @@ def make_case(seed, i):
             if r.random() < .3:
                 # the first example of the docstring documents a SyntaxError: pyflyby must skip it and go on
                 d[1].insert(0, ["bad", r.choice(["print 1", "def f(:", "x ="])])
-            if r.random() < .75:
+            k = r.random()
+            if k < .2:
+                # the only reader of the import is an example holding an invalid escape sequence ("\D" in a non-raw
+                # docstring): compiles with a SyntaxWarning - the example (and its reads) must count at every log level
+                d[1].append(["expr", ["op", "call", [["load", alias, [r.choice(G.ATTRS)]], ["op", "esc", []]]]])
+            elif k < .75:
                 d[1].append(["expr", ["load", alias, [r.choice(G.ATTRS)]]])
             else:
                 d[2].append(alias)
             prog.insert(k0, r.choice([["from", ["m"], [["d", alias]]], ["import", [[["pkg", "sub"], alias]]]]))
-    return {"kind": "exec", "i": i, "prog": G.normalise(prog), "ns": [[G.REG, G.DEC]], "params": gen_params(r)}
+    return {"kind": "exec", "i": i, "prog": G.normalise(prog), "ns": [[G.REG, G.DEC]], "params": gen_params(r),
+            "cli": i % 6 == 1}
 
 
 def gen_docstring(r):
@@ -236,7 +260,10 @@ def stmt_imports(s):
 
 def ast_blocks(src):
     """import blocks of a source text: list of {"lines": [lo, hi], "imports": [[full, as]], "stmts": term statements}"""
-    tree = ast.parse(src)
+    import warnings
+    with warnings.catch_warnings():
+        warnings.simplefilter("ignore", SyntaxWarning)        # the harness's own parse of "\\D" examples: not pyflyby's
+        tree = ast.parse(src)
     out, cur = [], None
     for st in tree.body:
         if isinstance(st, (ast.Import, ast.ImportFrom)):
@@ -280,12 +307,60 @@ def impl_case(c):
             out[key] = {"text": text, "blocks": ast_blocks(text)}
         except Exception as e:
             out[key] = {"exc": type(e).__name__, "msg": str(e)[:200]}
+    if c.get("cli"):
+        out["cli"] = cli_runs(src, c.get("params", {}))
     nsn = [n for lv in c["ns"] for n in lv]
     docs = c.get("docs", [])
     out["run"] = {"orig": run_tagged(src, nsn, docs)}
     for key in ("reformat", "tidy"):
         if "text" in out[key]:
             out["run"][key] = run_tagged(out[key]["text"], nsn, docs)
+    return out
+
+
+CLI_VARIANTS = [("default", [], None), ("--debug", ["--debug"], None), ("--verbose", ["--verbose"], None),
+                ("PYFLYBY_LOG_LEVEL=DEBUG", [], "DEBUG"), ("PYFLYBY_LOG_LEVEL=WARNING", [], "WARNING"),
+                ("PYFLYBY_LOG_LEVEL=ERROR", [], "ERROR")]
+
+
+def cli_options(params):
+    """the command-line spelling of an ImportFormatParams configuration (every option explicit: the defaults of the
+    command line differ from those of the class)"""
+    al = params.get("align_imports", True)
+    o = ["--separate-from-imports" if params.get("separate_from_imports", True) else "--no-separate-from-imports",
+         "--align-imports=%s" % ("1" if al is True else "0" if al is False else al),
+         "--from-spaces=%d" % params.get("from_spaces", 1),
+         "--hanging-indent=%s" % params.get("hanging_indent", "never")]
+    if params.get("max_line_length"):
+        o.append("--width=%d" % params["max_line_length"])
+    return o
+
+
+def cli_runs(src, params):
+    """the real command line: bin/tidy-imports --print FILE as a subprocess, at the default log level and with
+    --debug / --verbose / PYFLYBY_LOG_LEVEL in {DEBUG, WARNING, ERROR}; -> {variant: [exit code, stdout]}"""
+    import os
+    import subprocess
+    import sys
+    import tempfile
+    out = {}
+    with tempfile.TemporaryDirectory(prefix="c02cli") as d:
+        path = os.path.join(d, "mod.py")
+        with open(path, "w") as f:
+            f.write(src)
+        for name, extra, lvl in CLI_VARIANTS:
+            env = dict(os.environ)
+            env.pop("PYFLYBY_LOG_LEVEL", None)
+            if lvl:
+                env["PYFLYBY_LOG_LEVEL"] = lvl
+            try:
+                p = subprocess.run([sys.executable, os.path.join(cm.REPO, "bin", "tidy-imports"), "--print"] + cli_options(params)
+                                   + extra + [path],
+                                   stdin=subprocess.DEVNULL, stdout=subprocess.PIPE, stderr=subprocess.PIPE, env=env, cwd=d,
+                                   timeout=25)
+                out[name] = [p.returncode, p.stdout.decode("utf-8", "replace")]
+            except subprocess.TimeoutExpired:
+                out[name] = ["timeout", ""]
     return out
 
 
@@ -598,9 +673,11 @@ def incompatible_block(prog):
                 plain = (full == as_)
                 name = as_.split(".")[0]
                 val = ("pkg", name) if plain else ("obj", full)
-                if name in seen and seen[name] != val:
+                # two imports with the SAME import_as do not conflict in the output: ImportSet(ignore_shadowed) keeps the
+                # later one, as Python does; F7 needs two survivors, i.e. different import_as strings over one root name
+                if any(a2 != as_ and v2 != val for a2, v2 in seen.get(name, ())):
                     return True
-                seen.setdefault(name, val)
+                seen.setdefault(name, []).append((as_, val))
     return False
 
 
@@ -796,6 +873,125 @@ def class_own_name_reader(prog):
     return bool(hit)
 
 
+def conditional_overwrite(prog):
+    """C02c: at module scope, an import of n, then - with no read of n in between - a store to n that may not execute
+    (inside an if / while / for body or orelse, an except handler or its `as` name, a for target), then a read of n.
+    The finder's store rule is flow-insensitive: it reports the import unused at the store."""
+    ev = []
+
+    def tbound(t, acc):
+        if t is not None and t[0] == "n":
+            acc.add(t[1])
+        elif t is not None and t[0] == "t":
+            for x in t[1]:
+                tbound(x, acc)
+
+    def free(e, bound):
+        """loads of the expression that are not resolved by a lambda parameter / comprehension target inside it"""
+        if e is None:
+            return
+        t = e[0]
+        if t == "load":
+            if e[1] not in bound:
+                ev.append(("read", e[1], False))
+        elif t == "op":
+            for x in e[2]:
+                free(x, bound)
+        elif t == "attr":
+            free(e[1], bound)
+        elif t == "lambda":
+            for x in e[2]:
+                free(x, bound)
+            free(e[3], bound | set(e[1]))
+        elif t == "comp":
+            b2 = set(bound)
+            for it, tg, ifs in e[2]:
+                free(it, b2)
+                tbound(tg, b2)
+                for x in ifs:
+                    free(x, b2)
+            for x in e[3]:
+                free(x, b2)
+
+    def reads(exprs):
+        for e in exprs:
+            free(e, frozenset())
+
+    def tnames(t, cond):
+        if t is None:
+            return
+        if t[0] == "n":
+            ev.append(("store", t[1], cond))
+        elif t[0] == "a":
+            ev.append(("read", t[1], False))
+        elif t[0] == "t":
+            for x in t[1]:
+                tnames(x, cond)
+
+    def blk(b, cond):
+        for st in b:
+            t = st[0]
+            if t in ("def", "class"):
+                reads(c05.stmt_exprs(st))
+                local = set()
+                if t == "def":
+                    P = st[3]
+                    local = c05.block_binds(st[5]) | {q[0] for q in P["posonly"] + P["args"] + P["kwonly"]
+                                                      + [z for z in (P["vararg"], P["kwarg"]) if z]}
+                for n in all_reads(st[5]) - local:
+                    ev.append(("read", n, False))
+                ev.append(("store", st[1], cond))
+            elif t in ("import", "from"):
+                for n in c05.stmt_binds(st):
+                    ev.append(("store", n, cond))
+                    ev.append(("imp", n, cond))
+            elif t == "for":
+                reads([st[2]]); tnames(st[1], True); blk(st[3], True); blk(st[4], True)
+            elif t in ("while", "if"):
+                reads([st[1]]); blk(st[2], True); blk(st[3], True)
+            elif t == "with":
+                for e, tg in st[1]:
+                    reads([e]); tnames(tg, cond)
+                blk(st[2], cond)
+            elif t == "try":
+                blk(st[1], cond)
+                for h in st[2]:
+                    if h[0] is not None:
+                        reads([h[0]])
+                    if h[1]:
+                        ev.append(("store", h[1], True))
+                    blk(h[2], True)
+                blk(st[3], cond); blk(st[4], cond)
+            elif t == "doc":
+                for n in all_reads([st]):
+                    ev.append(("read", n, False))
+            else:
+                reads(c05.stmt_exprs(st))
+                for n in store_roots(st):
+                    ev.append(("read", n, False))
+                if t == "assign":
+                    for tg in st[1]:
+                        tnames(tg, cond)
+                else:
+                    for n in c05.stmt_binds(st):
+                        ev.append(("store", n, cond))
+    blk(prog, False)
+    pending = {}          # n -> state: 1 = imported and untouched since, 2 = conditionally overwritten while unread
+    for kind, n, cond in ev:
+        if kind == "imp":
+            pending[n] = 1
+        elif kind == "store":
+            if pending.get(n) == 1 and cond:
+                pending[n] = 2
+            elif pending.get(n) == 1:
+                pending.pop(n)
+        elif kind == "read":
+            if pending.get(n) == 2:
+                return True
+            pending.pop(n, None)
+    return False
+
+
 def classify(case):
     prog = case["prog"]
     if incompatible_block(prog):
@@ -812,6 +1008,8 @@ def classify(case):
         return "F10-firstiter"
     if class_level_reader(prog):
         return "F10-classcomp"
+    if conditional_overwrite(prog):
+        return "C02c"
     return None
 
 
@@ -824,6 +1022,7 @@ KNOWN_WHAT = {
     "F7": "an import block binds one name to two different objects; sorting the block changes which binding wins",
     "F31": "a function's own name is stored in its body scope: an import of that name read through the function is reported unused",
     "F34": "a function-body read is resolved at definition time when the name is already bound: the later rebinding import is reported unused",
+    "C02c": "a not-yet-read import whose name is stored inside a block that may not execute (if / while / for / except) is reported unused at the store (flow-insensitive rule) and removed; a later read needs it when the block is skipped",
 }
 
 
@@ -998,7 +1197,7 @@ def compare_runs(kind, base, got, rem, plain=(), other_bound=(), ood=None):
 
 def run_cases(ctx, cases):
     prepared = [c05.prepare(c) for c in cases]
-    wcases = [{"src": p[0], "ns": c["ns"], "params": c.get("params", {}), "docs": docstrings(c["prog"])}
+    wcases = [{"src": p[0], "ns": c["ns"], "params": c.get("params", {}), "docs": docstrings(c["prog"]), "cli": c.get("cli")}
               for c, p in zip(cases, prepared)]
     impl = cm.run_impl("c02", "impl_case", wcases, timeout_case=30)
     # phase 1: Finder on the original program
@@ -1071,7 +1270,7 @@ def as_pairs(l):
 
 
 def check_case(ctx, case, src, ids, im, mo, blocks, have_ref):
-    rec = {"i": case.get("i", 0), "kind": "exec", "src": src, "ns": case["ns"], "prog": case["prog"]}
+    rec = {"i": case.get("i", 0), "kind": "exec", "src": src, "ns": case["ns"], "prog": case["prog"], "cli": case.get("cli")}
     # ---- correspondence
     if "exc" in im["scan"]:
         ctx.disagreement("scan_for_import_issues raised", rec, im["scan"], None)
@@ -1103,6 +1302,20 @@ def check_case(ctx, case, src, ids, im, mo, blocks, have_ref):
         got = [b["imports"] for b in im["tidy"]["blocks"]]
         if want != got:
             ctx.disagreement("fix_unused_and_missing_imports: imports of the output blocks", rec, got, want)
+    # ---- the command line at every log level (no model: the outputs are compared with each other, and the default one
+    # with the in-process result block by block)
+    if "cli" in im:
+        ctx.bump("cli_cases")
+        ref = im["cli"]["default"]
+        for name, _, _ in CLI_VARIANTS[1:]:
+            if im["cli"][name] != ref:
+                ctx.violation("tidy-imports --print: same output at every log level (%s)" % name, rec,
+                              {"variant": name, "default": ref, "got": im["cli"][name]})
+            else:
+                ctx.bump("cli_same")
+        if "text" in im["tidy"] and ref != [0, im["tidy"]["text"]]:
+            ctx.disagreement("bin/tidy-imports --print (default level, the case's formatting options) = in-process tidy",
+                             rec, ref, im["tidy"]["text"])
     # ---- oracle
     base = im["run"]["orig"]
     nontriv = bool(im["scan"].get("unused")) or any(len(b["imports"]) > 1 for b in im["blocks"])
@@ -1183,7 +1396,7 @@ def run(ctx):
 
 def replay(payload):
     case = payload.get("case") or payload["disagreements"][0]["case"]
-    c = {"kind": "exec", "i": case.get("i", 0), "prog": case["prog"], "ns": case["ns"]}
+    c = {"kind": "exec", "i": case.get("i", 0), "prog": case["prog"], "ns": case["ns"], "cli": case.get("cli")}
     ctx = cm.Ctx("C02", "replay", 0)
     run_cases(ctx, [c])
     print(case.get("src", ""))
